@@ -15,6 +15,8 @@ DEFAULT_W = dict(
     scope=0.10,
     invoke=0.30,
     obj_param=0.45,      # a parameter is a dig.In object
+    deeptree=0.1,        # scope trees that grow deep, with siblings below depth 2
+    vizgroup=0.0,        # a value group with failing members, consumed and drawn with that Invoke's error
     loc=0.03,            # Provide carries dig.LocationForPC
     embed=0.04,          # an object embeds further structs (plain ones, or dig.In / dig.Out indirectly)
     obj_result=0.30,     # a result is a dig.Out object
@@ -781,6 +783,44 @@ class Gen:
         for sc in r.sample(chain, min(len(chain), 2)):
             self.ops.append({"op": "invoke", "scope": sc, "fn": cons, "info": False})
 
+    # ---- a value group some of whose members fail, consumed and drawn with the error of that Invoke
+    def op_failed_group_viz(self):
+        r = self.r
+        elem = r.choice(PT[:4])
+        g = r.choice(GROUPS + ["viz"])
+        sl = self.slice_of(elem)
+        k = r.choice([3, 3, 4, 5])
+        nfail = r.choice([1, 1, 1, 2])
+        failing = set(r.sample(range(k), nfail)) if r.random() < 0.5 else {k - 1}
+        for j in range(k):
+            ins, how = [], "ok"
+            if j in failing:
+                how = r.choice(["err", "err", "missing", "panic"])
+            if how == "missing":
+                (mt, mn) = self.fresh_key()
+                ins = [self.single_in(mt, mn)]
+            outs = [u(elem), u(0)] if r.random() < 0.7 or how == "err" else [u(elem)]
+            if r.random() < 0.25:
+                outs = [self.st([self.out_field(), self.field("M", u(elem), {"group": g}), self.field("X", u(r.choice(PT[4:])), {"name": "v%d" % j})])] + outs[1:]
+                opts = {"name": "", "group": "", "as": [], "opts": []}
+            else:
+                opts = {"name": "", "group": g, "as": [], "opts": ["group"]}
+            fid = self.new_fn(ins, outs)
+            if how in ("err", "panic"):
+                self.script[str(fid)] = [{"k": how, "len": 1, "dt": 0, "eslot": 0}] * 2
+            else:
+                self.script.pop(str(fid), None)
+            self.ops.append({"op": "provide", "scope": 0, "fn": fid, "name": "", "group": opts["group"], "as": [], "export": False,
+                             "cb": self.p("cb"), "info": False, "opts": opts["opts"]})
+            self.record_results(0, outs, opts, False, deps_ok=not ins)
+        gin = self.st([self.in_field(), self.field("G", u(sl), {"group": g})])
+        inv = self.new_fn([gin] if r.random() < 0.7 else [gin, u(r.choice(PT))], [])
+        self.invokers.append((inv, 0))
+        self.ops.append({"op": "invoke", "scope": r.choice([0, 0, r.randrange(0, self.nscopes)]), "fn": inv, "info": False})
+        self.ops.append({"op": "visualize", "scope": 0, "errOf": len(self.ops) - 1})
+        if r.random() < 0.3:
+            self.ops.append({"op": "visualize", "scope": 0, "errOf": -1})
+
     def op_invoke(self):
         r = self.r
         scope = r.randrange(0, self.nscopes)
@@ -804,13 +844,25 @@ class Gen:
             self.invokers.append((fid, scope))
         self.ops.append({"op": "invoke", "scope": scope, "fn": fid, "info": r.random() < 0.5})
 
+    def pick_parent(self):
+        """parent of a new scope: any scope, or (weight `deeptree`) one that makes the tree deep, with siblings below
+        a parent at depth >= 2"""
+        r = self.r
+        if self.p("deeptree"):
+            ds = [len(self.anc(s)) - 1 for s in range(self.nscopes)]
+            m = max(ds)
+            if m >= 2 and r.random() < 0.6:
+                return r.choice([s for s in range(self.nscopes) if ds[s] >= 2])
+            return r.choice([s for s in range(self.nscopes) if ds[s] == m])
+        return r.randrange(0, self.nscopes)
+
     def program(self):
         r = self.r
         cfg = {"defer": self.p("defer"), "recover": self.p("recover"), "dry": self.p("dry")}
         nops = r.randrange(4, self.w["max_ops"] + 1)
         # optionally start with a few scopes so that registrations land in a tree
-        for _ in range(r.choice([0, 0, 1, 2])):
-            par = r.randrange(0, self.nscopes)
+        for _ in range(r.choice([0, 0, 1, 2]) + (r.choice([0, 2, 3]) if self.p("deeptree") else 0)):
+            par = self.pick_parent()
             self.ops.append({"op": "scope", "parent": par})
             self.parents.append(par)
             self.nscopes += 1
@@ -827,6 +879,9 @@ class Gen:
             if r.random() < self.w["late"]:
                 self.op_late_dep()
                 continue
+            if r.random() < self.w["vizgroup"]:
+                self.op_failed_group_viz()
+                continue
             if r.random() < self.w["deepcycle"]:
                 self.op_deep_cycle()
                 continue
@@ -834,7 +889,7 @@ class Gen:
                 self.op_retry_web()
                 continue
             if c < self.w["scope"] and self.nscopes < self.w["max_scopes"]:
-                par = r.randrange(0, self.nscopes)
+                par = self.pick_parent()
                 self.ops.append({"op": "scope", "parent": par})
                 self.parents.append(par)
                 self.nscopes += 1
